@@ -41,7 +41,19 @@ type HarnessCfg struct {
 	cur    TierCfg
 }
 
+type ScanAllow struct {
+	Kind string `json:"kind"`
+	Func string `json:"func"` // substring of the function name
+	Why  string `json:"why"`
+}
+
+type ScanCfg struct {
+	Packages []string    `json:"packages"`
+	Allow    []ScanAllow `json:"allow"`
+}
+
 type CheckCfg struct {
+	Scan        *ScanCfg      `json:"scan"`
 	Property    string        `json:"property"`
 	Harnesses   []*HarnessCfg `json:"harnesses"`
 	Assumptions []string      `json:"assumptions"`
@@ -147,6 +159,13 @@ func RunCheck(o RunOpts, propID string) int {
 		patterns = append(patterns, p)
 	}
 	sort.Strings(patterns)
+	if cc.Scan != nil {
+		for _, p := range cc.Scan.Packages {
+			if !pkgSet["./"+p] {
+				patterns = append(patterns, "./"+p)
+			}
+		}
+	}
 	patterns = append(patterns, "./vsupport")
 	tLoad := time.Now()
 	L, err := Load(o.RepoDir, filepath.Join(o.VerifDir, "harness"), patterns, "verif,symgo")
@@ -207,7 +226,7 @@ func RunCheck(o RunOpts, propID string) int {
 		for _, v := range jr.Violations {
 			path := writeReplay(o, propID, h, v)
 			ok, note := true, ""
-			if !o.NoReplay {
+			if !o.NoReplay && !v.NoNativeReplay {
 				ok, note = nativeReplay(o, L, h, path, v)
 			}
 			if ok {
@@ -230,6 +249,23 @@ func RunCheck(o RunOpts, propID string) int {
 				inconclusive = append(inconclusive, h.Func+": witness replay: "+nt)
 			}
 		}
+	}
+	var scanSites []ScanSite
+	if cc.Scan != nil {
+		scanSites = L.ScanDeterminism(cc.Scan.Packages)
+		for _, st := range scanSites {
+			ok := false
+			for _, a := range cc.Scan.Allow {
+				if a.Kind == st.Kind && strings.Contains(st.Func, a.Func) {
+					ok = true
+					break
+				}
+			}
+			if !ok {
+				inconclusive = append(inconclusive, fmt.Sprintf("determinism scan: unreviewed %s site %s (%s) in %s — add an order/entropy argument or a harness", st.Kind, st.Pos, st.What, st.Func))
+			}
+		}
+		fmt.Printf("determinism scan: %d sites in %d packages\n", len(scanSites), len(cc.Scan.Packages))
 	}
 	for _, s := range inconclusive {
 		fmt.Printf("INCONCLUSIVE %s\n", s)
